@@ -47,6 +47,10 @@ type SkelSpec struct {
 	Name  string   `json:"name"`  // Lean name
 	Calls []string `json:"calls"` // selector suffixes that count as effectful (e.g. "storage.Get", "mu.Lock")
 	Lits  bool     `json:"lits"`  // also emit <Name>_lits: every integer literal of the body, in source order
+	// Optional lock-fact extras (all off by default, so existing skeletons are unchanged):
+	Touch     []string `json:"touch"`      // identifiers / selectors whose every occurrence is emitted as "@<sel>" (guarded data)
+	MarkDefer bool     `json:"mark_defer"` // deferred calls are emitted as "defer <call>"
+	Blocks    bool     `json:"blocks"`     // a block ending in `return` is bracketed by "{ret" … "}" (its lock state does not fall through)
 }
 
 // RouteSpec: a tag-less `switch { case cond: return recv.handler(...) … default: … }` inside Func becomes
@@ -624,7 +628,49 @@ func genSkel(root string, ss *SkelSpec, out *strings.Builder) {
 		die("skel: function %s not found in %s", key, ss.Dir)
 	}
 	var calls []string
+	deferred := map[*ast.CallExpr]bool{}
+	if ss.MarkDefer {
+		ast.Inspect(fd.Body, func(n ast.Node) bool {
+			if d, ok := n.(*ast.DeferStmt); ok {
+				deferred[d.Call] = true
+			}
+			return true
+		})
+	}
+	var stack []ast.Node
+	retBlock := func(n ast.Node) bool {
+		b, ok := n.(*ast.BlockStmt)
+		if !ok || !ss.Blocks || b == fd.Body || len(b.List) == 0 {
+			return false
+		}
+		_, isRet := b.List[len(b.List)-1].(*ast.ReturnStmt)
+		return isRet
+	}
 	ast.Inspect(fd.Body, func(n ast.Node) bool {
+		if n == nil {
+			top := stack[len(stack)-1]
+			stack = stack[:len(stack)-1]
+			if retBlock(top) {
+				calls = append(calls, "}")
+			}
+			return true
+		}
+		stack = append(stack, n)
+		if retBlock(n) {
+			calls = append(calls, "{ret")
+		}
+		if len(ss.Touch) > 0 {
+			switch e := n.(type) {
+			case *ast.Ident, *ast.SelectorExpr:
+				full := selStr(e.(ast.Expr))
+				for _, want := range ss.Touch {
+					if full == want {
+						calls = append(calls, "@"+want)
+						break
+					}
+				}
+			}
+		}
 		ce, ok := n.(*ast.CallExpr)
 		if !ok {
 			return true
@@ -632,7 +678,11 @@ func genSkel(root string, ss *SkelSpec, out *strings.Builder) {
 		full := selStr(ce.Fun)
 		for _, want := range ss.Calls {
 			if full == want || strings.HasSuffix(full, "."+want) {
-				calls = append(calls, want)
+				if deferred[ce] {
+					calls = append(calls, "defer "+want)
+				} else {
+					calls = append(calls, want)
+				}
 				break
 			}
 		}
